@@ -617,6 +617,17 @@ Definition unbound_graph (k : N) (tm : tmpl) (omega : list sol) : bool :=
              (enum_from 0 (blocks tm)))
     (enum_from 0 omega).
 
+(* F10h: evalDeleteWhere consumes evalBGP(ctx, u.triples) lazily while it
+   deletes; with two or more triple patterns outside GRAPH and two or more
+   solutions the pattern is no longer matched against the state before the
+   operation (the model, which takes the solution list of that state, is not
+   faithful in this region) *)
+Definition lazy_region (tm : tmpl) (om : list sol) : bool :=
+  match t_triples tm, om with
+  | _ :: _ :: _, _ :: _ :: _ => true
+  | _, _ => false
+  end.
+
 Definition opt_tm (f : tmpl -> bool) (t : option tmpl) : bool :=
   match t with Some x => f x | None => false end.
 
@@ -626,7 +637,8 @@ Definition op_kf (e : env) (k : N) (o : uop) : N :=
   | DeleteData ts _ => if self_mode e && negb (is_nil ts) then 1 else 0
   | DeleteWhere tm om =>
       if has_gvar tm && negb (is_nil om) then 6
-      else if self_mode e && negb (is_nil (t_triples tm)) && negb (is_nil om) then 1 else 0
+      else if self_mode e && negb (is_nil (t_triples tm)) && negb (is_nil om) then 1
+      else if lazy_region tm om then 8 else 0
   | Modify _ _ _ d i om =>
       if opt_tm (fun t => illegal_insert e k t om) i then 3
       else if opt_tm (fun t => shared_label t && negb (is_nil om)) i then 4
